@@ -7,6 +7,7 @@
 #include <poll.h>
 #include <signal.h>
 #include <functional>
+#include <execinfo.h>
 
 namespace vs {
 
@@ -54,6 +55,10 @@ inline Result runForked(const vsched::Config& cfg, const std::function<void()>& 
     close(fds[0]); g_pipe = fds[1];
     alarm(0);
     int sigs[] = {SIGALRM, SIGSEGV, SIGABRT, SIGBUS, SIGILL, SIGFPE, SIGTRAP}; for (int s : sigs) signal(s, SIG_DFL);
+    if (getenv("VS_BACKTRACE")) {   // triage aid: raw return addresses of the crashing thread on stderr (resolve with addr2line -e <binary> -f -C)
+      struct Bt { static void h(int sig) { void* a[48]; int n = backtrace(a, 48); backtrace_symbols_fd(a, n, 2); signal(sig, SIG_DFL); raise(sig); } };
+      signal(SIGSEGV, Bt::h); signal(SIGBUS, Bt::h); signal(SIGILL, Bt::h);
+    }
     std::string labels; g_childLabels = &labels;
     pbt::g_failHook = childFail;
     pbt::g_ledger.reset(); pbt::g_ledger.quarantine = true; pbt::g_ledger.on = 1; pbt::g_ledger.limitBytes = 64u << 20;
